@@ -31,6 +31,10 @@ type Op struct {
 	Vals   []ref.Value `json:"vals,omitempty"`
 	Path   int         `json:"path,omitempty"`
 	Extra  int         `json:"extra,omitempty"`
+	// Bad (data sets only): the element list additionally holds, at position BadPos, a value that
+	// cannot be encoded for its element; the add must be refused and leave the set as it was.
+	Bad    string `json:"bad,omitempty"`
+	BadPos int    `json:"bad_pos,omitempty"`
 }
 
 type Case struct {
@@ -68,8 +72,25 @@ func elements(o Op, tpl bool) []entities.InfoElementWithValue {
 	return els
 }
 
+func badElement(kind string) entities.InfoElementWithValue {
+	switch kind {
+	case "v6_in_ipv4":
+		f := glue.UserField(ref.TIPv4)
+		return glue.Element(glue.IE(f), f.Type, ref.Value{B: []byte{0x20, 1, 0xd, 0xb8, 0, 0, 0, 0, 0, 0, 0, 0, 0, 0, 0, 1}})
+	case "mac5":
+		f := glue.UserField(ref.TMac)
+		return glue.Element(glue.IE(f), f.Type, ref.Value{B: []byte{1, 2, 3, 4, 5}})
+	}
+	f := glue.UserFixedOctets(8)
+	return glue.Element(glue.IE(f), f.Type, ref.Value{B: []byte{1, 2, 3}})
+}
+
 func add(set entities.Set, o Op, tpl bool, id uint16, path int) error {
 	els := elements(o, tpl)
+	if o.Bad != "" && !tpl {
+		p := o.BadPos % (len(els) + 1)
+		els = append(els[:p:p], append([]entities.InfoElementWithValue{badElement(o.Bad)}, els[p:]...)...)
+	}
 	switch path {
 	case exph.PathExtra:
 		return set.AddRecordWithExtraElements(els, o.Extra, id)
@@ -129,7 +150,20 @@ func play(c Case, forcePath int, st *Stats) ([]byte, *ev.Failure) {
 			if !m.prepared {
 				continue
 			}
-			if err := add(set, o, m.tpl, m.id, path); err != nil {
+			err := add(set, o, m.tpl, m.id, path)
+			if o.Bad != "" && !m.tpl {
+				if err == nil {
+					return trace, nil // the value was not refused: C09 judges that; this history cannot be followed further
+				}
+				if st != nil {
+					st.refusedAdd = true
+				}
+				oo := o
+				oo.Path = path
+				m.ops = append(m.ops, oo)
+				break
+			}
+			if err != nil {
 				return nil, ev.Failf("op %d add (path %d, %d elements): %v", i, path, len(o.Fields), err)
 			}
 			if m.tpl {
@@ -211,7 +245,10 @@ func play(c Case, forcePath int, st *Stats) ([]byte, *ev.Failure) {
 			}
 		}
 		// differential: a fresh set replaying the operations since the last reset
-		if o.Kind != "prepare" || len(m.ops) > 0 {
+		// (run right after a reset, for the first operations on the reused set, and at the end of each
+		// segment: the cost of replaying is quadratic otherwise)
+		segEnd := i == len(c.Ops)-1 || c.Ops[i+1].Kind == "reset"
+		if o.Kind == "reset" || len(m.ops) <= 4 || segEnd {
 			fresh := entities.NewSet(false)
 			var ft bool
 			var fid uint16
@@ -225,7 +262,7 @@ func play(c Case, forcePath int, st *Stats) ([]byte, *ev.Failure) {
 					fresh.PrepareSet(ct, fo.ID)
 					ft, fid = fo.Tpl, fo.ID
 				case "add":
-					if err := add(fresh, fo, ft, fid, fo.Path); err != nil {
+					if err := add(fresh, fo, ft, fid, fo.Path); err != nil && fo.Bad == "" {
 						return nil, ev.Failf("fresh-set replay: %v", err)
 					}
 				case "update":
@@ -236,14 +273,15 @@ func play(c Case, forcePath int, st *Stats) ([]byte, *ev.Failure) {
 				return nil, ev.Failf("after op %d (%s): the reused set differs from a fresh set given the same operations since the last reset: length %d vs %d, header % x vs % x", i, o.Kind, set.GetSetLength(), fresh.GetSetLength(), set.GetHeaderBuffer(), fresh.GetHeaderBuffer())
 			}
 		}
-		trace = append(trace, setBytes(set)...)
-		trace = append(trace, byte(set.GetSetLength()>>8), byte(set.GetSetLength()))
+		// the trace is a hash chain over the serialized set after every operation
+		h := ev.HashBytes(trace, setBytes(set), []byte{byte(set.GetSetLength() >> 8), byte(set.GetSetLength())})
+		trace = []byte{byte(h >> 56), byte(h >> 48), byte(h >> 40), byte(h >> 32), byte(h >> 24), byte(h >> 16), byte(h >> 8), byte(h)}
 	}
 	return trace, nil
 }
 
 type Stats struct {
-	resetAfterRecords, reuseDifferent, nontrivial, havePrev, prevTpl bool
+	resetAfterRecords, reuseDifferent, nontrivial, havePrev, prevTpl, refusedAdd bool
 	prevID                                                            uint16
 }
 
@@ -258,7 +296,7 @@ func runCase(c Case, st *Stats) *ev.Failure {
 			return ev.Failf("with every add going through path %d: %s", p, f.Msg)
 		}
 		if !bytes.Equal(tr, base) {
-			return ev.Failf("the history gives different bytes when every add goes through path %d (first difference at %d)", p, firstDiff(tr, base))
+			return ev.Failf("the history gives different serialized sets when every add goes through path %d", p)
 		}
 	}
 	return nil
@@ -299,6 +337,10 @@ func genCase(t *rapid.T) Case {
 			}
 			if !tpl {
 				o.Vals = gen.Record(t, o.Fields, rapid.SampledFrom([]int{20, 300, 300, 66000}).Draw(t, "maxvar"))
+				if rapid.IntRange(0, 7).Draw(t, "bad") == 0 {
+					o.Bad = rapid.SampledFrom([]string{"v6_in_ipv4", "mac5", "fixed_short"}).Draw(t, "badkind")
+					o.BadPos = rapid.IntRange(0, 12).Draw(t, "badpos")
+				}
 			}
 			c.Ops = append(c.Ops, o)
 		case k <= 7:
@@ -321,6 +363,9 @@ func TestC16(t *testing.T) {
 		}
 		if st.reuseDifferent {
 			cl = append(cl, "reuse_with_different_type_or_id")
+		}
+		if st.refusedAdd {
+			cl = append(cl, "refused_add_then_continued")
 		}
 		for _, o := range c.Ops {
 			if o.Kind == "prepare" {
